@@ -49,6 +49,11 @@ func checkCompatString(c *Ctx, cs *h.Case, b []byte) {
 			if !bytes.Equal(arg, b) {
 				c.Rec.Violate(cs, "StdLibCompatibleStringBytes modified its argument", "StdLibCompatibleStringBytes", fmt.Sprintf("%q", b), fmt.Sprintf("%q", arg))
 			}
+			// the result must live in the destination (or in fresh memory), never in the source: a caller
+			// that keeps results while re-using the source buffer would see them change (seeded change C17r3-m1)
+			if h.Overlaps(got, arg) {
+				c.Rec.Violate(cs, "StdLibCompatibleStringBytes returned a slice that shares memory with its source argument", "StdLibCompatibleStringBytes", "result in the destination's or in fresh memory", fmt.Sprintf("len(dst)=%d cap(dst)=%d", len(dst), cap(dst)))
+			}
 		}
 	})
 }
